@@ -95,8 +95,10 @@ def replay_hist(arg):
         G = out["g"]
         rep = {"hist": [sorted(f, key=lambda r: r["e"]) for f in hist], "cfg": cfg, "mode": mode, "spec": out}
         try:
-            cl = CLEAR(object_results=frames, num_ground_truth=G, target_labels=[AW["car"]], matching_mode=MODES[mode],
-                       matching_threshold_list=[thr])
+            # (label and threshold sequences of either kind: a list, or the tuple that unpacking a configuration yields)
+            kind = (list, tuple)[seed % 2]
+            cl = CLEAR(object_results=frames, num_ground_truth=G, target_labels=kind([AW["car"]]), matching_mode=MODES[mode],
+                       matching_threshold_list=kind([thr]))
         except Exception as ex:
             mism.append(("raised", "CLEAR raised %r" % (ex,), rep))
             continue
@@ -253,7 +255,8 @@ def _one_history(arg):
 
         for i, (label, bl, G, evs) in enumerate(pending):
             # the bucket scored directly by CLEAR, and the same bucket as TrackingMetricsScore scored it (its own per-label CLEAR)
-            cl = CLEAR(object_results=bl, num_ground_truth=G, target_labels=[AW[label]], matching_mode=mode, matching_threshold_list=[thr_by[label]])
+            kind = (list, tuple)[i % 2]
+            cl = CLEAR(object_results=bl, num_ground_truth=G, target_labels=kind([AW[label]]), matching_mode=mode, matching_threshold_list=kind([thr_by[label]]))
             for via, r_ in (("CLEAR", cl.results), ("TrackingMetricsScore", ts.clears[i].results)):
                 info = dict(label=label, frames=len(bl) - 1, g=G, via=via, thresholds=thr_by, **prm, results={a: (b if b != float("inf") else "inf") for a, b in r_.items()})
                 evs_all.append(([dict(e_) for e_ in evs] + [end_event(r_)], info))
